@@ -344,7 +344,8 @@ Inductive event :=
                                             (or finds the process not runnable) *)
 | EMsg (m : msg)                         (* notify_message, executor.rs:831 *)
 | EResult (p : pid) (v : value)          (* notify_result, executor.rs:753 *)
-| EFail (p : pid)                        (* worker.rs:577 notify_result Err arm *)
+| EFail (p : pid)                        (* worker.rs:577 notify_result Err arm (the repair only wakes
+                                            an awaiter that no longer awaits p) *)
 | EActive                                (* mark_active, executor.rs:871 *)
 | ELocal (p : pid) (r : option value).   (* awaited process finishes on the same executor:
                                             Executor::step awaiters loop, executor.rs:1245-1280 *)
@@ -358,7 +359,7 @@ Definition apply_event (ev : event) (st : proc) : outcome proc :=
   | EStep now => step now st
   | EMsg m => Val (wake (set_mailbox st (p_mailbox st ++ [m])))
   | EResult p v => Val (notify_result p v st)
-  | EFail p => Val (if fix45 && negb (aw_has p (p_awaiting st)) then st else set_error st (PAwaited p))
+  | EFail p => Val (if fix45 && negb (aw_has p (p_awaiting st)) then wake st else set_error st (PAwaited p))
   | EActive => Val (wake st)
   | ELocal p r =>
       if aw_has p (p_awaiting st) then
